@@ -14,6 +14,7 @@ import (
 
 	"github.com/coreruleset/crs-toolchain/v2/context"
 	"github.com/coreruleset/crs-toolchain/v2/regex"
+	"github.com/coreruleset/crs-toolchain/v2/utils"
 )
 
 var logger = log.With().Str("component", "update-copyright").Logger()
@@ -64,8 +65,7 @@ func processFile(filePath string, version string, year string) error {
 // Ideally we have support in the future for a proper parser file, so we can use that to change it
 // in a more elegant way. Right now we just match strings.
 func updateRules(version string, year string, contents []byte) ([]byte, error) {
-	scanner := bufio.NewScanner(bytes.NewReader(contents))
-	scanner.Split(bufio.ScanLines)
+	scanner := utils.NewLineScanner(bytes.NewReader(contents))
 	output := new(bytes.Buffer)
 	writer := bufio.NewWriter(output)
 	replaceVersion := fmt.Sprintf("${1}%s", version)
